@@ -328,6 +328,8 @@ def run(ck: Check, repo: Repo) -> None:
     _close(ck, repo, cls)
     from ._c13_r3b import run_r3b
     run_r3b(ck, repo)
+    from ._c13_r5 import run_r5
+    run_r5(ck, repo)
 
 
 def _queue_fields(cfg: CFG, n: Node, e: ast.AST, path: Tuple[int, ...] = (), seen: Optional[Set] = None, source=None) -> Set[str]:
